@@ -146,6 +146,14 @@ def sock_cases(tier, rnd):
                        + [["send", S.KINDS[i % 3], ("idem", "nonidem")[i % 2], f"t{i % 3 + 1}"]
                           for i in range(k)]
                        + [["turns", 3], ["unstall"], ["adv", 3.0]])
+            # ... and the application gives up on them (cancelled senders): nothing of theirs
+            # may go out again on a later flush or connection
+            out.append([["q"], ["stall"], ["send", "ac_ctrl", pol, "t1"], ["turns", 2]]
+                       + [["send", S.KINDS[i % 3], ("idem", "nonidem")[i % 2], f"t{i % 3 + 1}"]
+                          for i in range(k)]
+                       + [["turns", 2], ["cancel_sends"], ["unstall"], ["adv", 0.5],
+                          ["send", "zone_ctrl", "idem", "inline"], ["fin"], ["adv", 3.0],
+                          ["send", "quick_timer", "idem", "inline"], ["adv", 1.0]])
     # --- random
     n = 300 if tier == "quick" else 150000
     for _ in range(n):
@@ -223,11 +231,21 @@ def check_sock(gen, run):
             v("link-error-surfaces-from-send", serial=r["serial"], outcome=r["outcome"],
               policy=r["policy"])
     for r in run.sends:
-        if r["data"] is None or "call_seq" not in r or r["outcome"] not in ("ok", "pending"):
+        if r["data"] is None or "call_seq" not in r or r["outcome"] not in ("ok", "pending",
+                                                                             "cancelled"):
             continue
         att = S.attempts_of(gen, log, r)
         retries, L = r["policy"]
         expiry = r["call_t"] + L
+        if r["outcome"] == "cancelled":
+            # the application cancelled this send while it was under way: whatever had been
+            # handed to the transport may go out - the budget and the expiry still hold,
+            # nothing else is owed
+            obs["cancelled_sends_judged"] = obs.get("cancelled_sends_judged", 0) + 1
+            if len([a for a in att if not a["fault"]]) > 1:
+                v("more-attempts-than-retry-budget", serial=r["serial"], attempts=len(att),
+                  budget="1 (cancelled, no write fault)", policy=r["policy"])
+            continue
         if len(att) > 1 + retries:
             v("more-attempts-than-retry-budget", serial=r["serial"], attempts=len(att),
               budget=1 + retries, policy=r["policy"])
